@@ -261,8 +261,10 @@ def run(ctx):
     wdir = os.path.join(root, 'wtt')
     for size in (0, 1, 4095, 4096, 4097, 65535, 65536, 65537, 131072, 131073, (1 << 20) + 1) + (() if quick else (3 * (1 << 20) + 5,)):
         content = rnd.randbytes(size)
+        # bytes-like content of any kind is written verbatim
+        given = [content, bytearray(content), memoryview(content)][w % 3]
         try:
-            newp = fileutils.write_to_tempfile(content, path=wdir)
+            newp = fileutils.write_to_tempfile(given, path=wdir)
             with open(newp, 'rb') as fh:
                 back = fh.read()
             os.unlink(newp)
@@ -368,7 +370,12 @@ def run(ctx):
         here = os.path.join(root, 'still_here')
         with open(here, 'w') as fh:
             fh.write('x')
-        for target in ('/nonexistent/x', here):
+        class RemoverError(OSError):
+            """an OSError subclass of the remover's own (e.g. from a storage driver): what counts is its errno"""
+        for target in ('/nonexistent/x', here, here + '#own-error-class'):
+            if target.endswith('#own-error-class'):
+                target = here
+                err = RemoverError(code, os.strerror(code))
             try:
                 fileutils.delete_if_exists(target, remove=boom_factory(err))
                 got = 'swallowed'
